@@ -7,5 +7,48 @@
 namespace vf { namespace c10 {
 void register_unit_families() { register_group_c(); }
 uint64_t random_cases(bool thorough) { return thorough ? 150000 : 1500; }
-std::vector<Extra>& extras() { static std::vector<Extra> x; return x; }
+// ---------------------------------------------------------------- VarOpt images synthesised from the documented layout
+// byte0 low 6 bits preLongs (3 warm-up, 4 full), high 2 bits resize factor 1 serVer=2 2 family=13 3 flags 4-7 k | u64 n (the
+// items-seen count; documented as limited to 48 bits, stored in a full long) | u32 h u32 r | [f64 totalWeightR] | f64 weights[h] | items[h+r]
+static void synth_varopt(int rep) {
+  Rng r(0x7A60 + rep);
+  const bool full = rep & 1;
+  const uint32_t k = 8 + 4 * uint32_t(rep);
+  const uint32_t h = full ? uint32_t(r.below(k)) : 1 + uint32_t(r.below(k));
+  const uint32_t rr = full ? k - h : 0;
+  const uint64_t n = full ? (rep == 3 ? (uint64_t(1) << 40) + 12345 : k + 1000) : h;   // one count above 32 bits
+  const uint8_t rf = uint8_t(rep % 4);
+  const double tau = 7.5, total_r = tau * rr;
+  std::vector<int64_t> items; std::vector<double> wts;
+  for (uint32_t i = 0; i < h; ++i) wts.push_back(100.0 + double(r.below(10000)) * 0.5);
+  for (uint32_t i = 0; i < h + rr; ++i) items.push_back(int64_t(r.below(1u << 30)) - 1000);
+  Wr w; w.u8(uint8_t((full ? 4 : 3) | (rf << 6))).u8(2).u8(13).u8(0).u32(k).u64(n).u32(h).u32(rr);
+  if (full) w.f64(total_r);
+  for (double x : wts) w.f64(x);
+  for (int64_t x : items) w.u64(uint64_t(x));
+  std::vector<double> want_w = wts; for (uint32_t i = 0; i < rr; ++i) want_w.push_back(total_r / rr);
+  for (int stream = 0; stream < 2; ++stream) {
+    const std::string P = stream ? "stream" : "bytes";
+    const std::string key = std::string("legacy|varopt|synthesised-") + (full ? "full" : "warmup") + "|" + P + "|";
+    try {
+      const auto s = read_varopt<int64_t>(w.b, stream != 0);
+      VF_CHECK(s.get_k() == k && s.get_n() == n && s.get_num_samples() == h + rr && !s.is_empty(), key + "counts", "n=" + std::to_string(s.get_n()));
+      std::vector<int64_t> gi; std::vector<double> gw;
+      varopt_items(s, gi, gw);
+      VF_CHECK(gi == items, key + "items-or-order", "");
+      VF_CHECK(same_bits(gw, want_w), key + "weights", "h=" + std::to_string(h) + " r=" + std::to_string(rr));
+      const std::string re = write_varopt(s, false);
+      VF_CHECK(re == w.b, key + "reserialized-differs", "resize factor bits or field order not preserved");
+    } catch (const std::exception& e) { checked(); fail(key + "deserialize-threw", e.what()); }
+    count("legacy_varopt_" + P);
+  }
+  sig(img_hash(w.b));
+}
+
+std::vector<Extra>& extras() {
+  static std::vector<Extra> x;
+  static bool init = false;
+  if (!init) { init = true; for (int rep = 0; rep < 6; ++rep) x.push_back(Extra{"synth varopt", [rep]() { synth_varopt(rep); }}); }
+  return x;
+}
 } }
